@@ -44,9 +44,9 @@ Definition set_entry (cid : nat) (n : Z) (e : entry) : entry :=
   let '(i, mx, al) := e in if Nat.eqb i cid then (i, Some n, al) else e.
 
 (** O3: announcing the size of a region: silent when it fits every other live region *)
-Theorem set_constraint_spec cid pa n s : wf_st s -> 0 <= n -> (cid < List.length (store s))%nat ->
+Theorem set_constraint_spec abort cid pa n s : wf_st s -> 0 <= n -> (cid < List.length (store s))%nat ->
   Forall (fun e => fst (fst e) = cid \/ entry_fits n e) (view s) ->
-  exists s', set_constraint true cid pa n s = ([], s', Ok tt) /\ inp s' = inp s /\ lst s' = lst s /\
+  exists s', set_constraint abort cid pa n s = ([], s', Ok tt) /\ inp s' = inp s /\ lst s' = lst s /\
              view s' = map (set_entry cid n) (view s) /\ wf_st s' /\
              List.length (store s') = List.length (store s) /\
              get_sc s' cid = mkSc (Some pa) (Some n) (sc_already (get_sc s cid)) (sc_obs (get_sc s cid)) /\
@@ -119,8 +119,8 @@ Lemma filter_and {A} (f g : A -> bool) l : filter g (filter f l) = filter (fun a
 Proof. induction l as [|a l IH]; [reflexivity|]. cbn. destruct (f a); cbn; [destruct (g a); cbn; rewrite IH; reflexivity|exact IH]. Qed.
 
 (** O5: closing the innermost region when it is exactly filled *)
-Theorem assert_done_spec cid mx V s : wf_st s -> view s = V ++ [(cid, Some mx, mx)] -> ~ In cid (ids_of V) ->
-  exists s', assert_done true cid s = ([], s', Ok tt) /\ inp s' = inp s /\ lst s' = lst s /\
+Theorem assert_done_spec abort cid mx V s : wf_st s -> view s = V ++ [(cid, Some mx, mx)] -> ~ In cid (ids_of V) ->
+  exists s', assert_done abort cid s = ([], s', Ok tt) /\ inp s' = inp s /\ lst s' = lst s /\
              view s' = V /\ wf_st s' /\ List.length (store s') = List.length (store s).
 Proof.
   intros [ND AL] Hv Hn.
@@ -165,10 +165,15 @@ Proof.
   unfold bind, ret. rewrite IH. cbn [app]. rewrite app_nil_r. reflexivity.
 Qed.
 
-Theorem dec_prim_spec p pa bs rest s : wf_st s -> inp s = bs ++ rest -> List.length bs = Z.to_nat (pwidth p) ->
-  0 <= pwidth p -> valid p (from_bytes (psigned p) bs) = true -> fits (view s) (pwidth p) ->
-  exists s', dec_prim true p pa s =
-               (map Rd bs ++ [Ev (mkEvent pa (TyN (pname p)) (Some (from_bytes (psigned p) bs)))], s',
+(** the warning that follows the event of an out-of-range primitive in warn mode *)
+Definition vwarn (pa : path) (p : prim) (z : Z) : list action :=
+  if valid p z then [] else [Wn (EValue pa (pname p) z VSType)].
+
+Theorem dec_prim_spec abort p pa bs rest s : wf_st s -> inp s = bs ++ rest -> List.length bs = Z.to_nat (pwidth p) ->
+  0 <= pwidth p -> (abort = true -> valid p (from_bytes (psigned p) bs) = true) -> fits (view s) (pwidth p) ->
+  exists s', dec_prim abort p pa s =
+               (map Rd bs ++ Ev (mkEvent pa (TyN (pname p)) (Some (from_bytes (psigned p) bs))) ::
+                  vwarn pa p (from_bytes (psigned p) bs), s',
                 Ok (Some (VInt_ (pname p) (from_bytes (psigned p) bs)))) /\
              inp s' = rest /\ view s' = bump (pwidth p) (view s) /\ wf_st s'.
 Proof.
@@ -176,7 +181,11 @@ Proof.
   destruct (bytes_parsed_fits pa (pwidth p) s W F) as (s1 & E1 & I1 & V1 & W1 & _ & _). rewrite E1. cbn [app].
   unfold bind at 1. rewrite <- L.
   replace s1 with (mkSt (bs ++ rest) (store s1) (lst s1)) by (destruct s1; cbn in *; congruence).
-  rewrite readn_exact'. rewrite V. unfold bind, emit, ret. cbn [app].
-  eexists. split; [reflexivity|]. cbn [inp]. split; [reflexivity|].
-  split; [rewrite <- V1; reflexivity|exact W1].
+  rewrite readn_exact'. unfold vwarn.
+  destruct (valid p (from_bytes (psigned p) bs)) eqn:Vd.
+  - unfold bind, emit, ret. cbn [app].
+    eexists. split; [reflexivity|]. cbn [inp]. split; [reflexivity|]. split; [rewrite <- V1; reflexivity|exact W1].
+  - destruct abort; [specialize (V eq_refl); discriminate|].
+    unfold bind, emit, ret. cbn [app].
+    eexists. split; [reflexivity|]. cbn [inp]. split; [reflexivity|]. split; [rewrite <- V1; reflexivity|exact W1].
 Qed.
